@@ -343,6 +343,7 @@ def gen_C11(ctx):
     out += st_dup_keys(["S", "P"])
     out += st_bsearch(ctx, ctx.n(2500, 200000), "c11-bsearch")
     out += st_iter_scripts() + st_iter_random(ctx, ctx.n(2000, 200000))
+    out += st_key_families() + st_key_families_parse(["S", "P"])
     return out
 
 
